@@ -69,3 +69,4 @@ package gen
 //@        ==> isint64(num) && anyint(num) == (if old(n.Neg) then 0 - old(n.I) else old(n.I))
 //@   ensures [C02 int] old(len(n.BigBuf)) == 0 && old(n.Div) == 1 && old(n.Exp) == 0 && n.ForceFloat ==> isfloat64(num)
 //@   ensures [C02 kind] old(len(n.BigBuf)) == 0 && !(old(n.Div) == 1 && old(n.Exp) == 0) ==> isfloat64(num)
+//@   ensures [C06 notkey] !typeis(num, Key)
